@@ -214,8 +214,12 @@ fn render_all(image: &JxlImage) -> Result<Vec<Vec<(usize, usize, Vec<f32>)>>, St
     Ok(out)
 }
 
+/// `openw` instead of `open`: every image of the session is opened with `force_wide_buffers(true)`
+static WIDE: std::sync::atomic::AtomicBool = std::sync::atomic::AtomicBool::new(false);
+
 fn open_image(bytes: &[u8]) -> Result<JxlImage, String> {
     JxlImage::builder()
+        .force_wide_buffers(WIDE.load(std::sync::atomic::Ordering::Relaxed))
         .read(std::io::Cursor::new(bytes))
         .map_err(|e| format!("open-error {e}"))
 }
@@ -297,7 +301,8 @@ fn main() {
         }
         // ---- (b) real decoder ops -------------------------------------------------------
         match w[0] {
-            "open" if w.len() == 2 => {
+            "open" | "openw" if w.len() == 2 => {
+                WIDE.store(w[0] == "openw", std::sync::atomic::Ordering::Relaxed);
                 let Ok(bytes) = std::fs::read(w[1]) else {
                     return "open-error read".into();
                 };
